@@ -83,8 +83,11 @@ func TestC06_Reference(t *testing.T) {
 	rapid.Check(t, func(t *rapid.T) {
 		p, pname := genProfile(t)
 		p.MaxLen = 5
-		if rapid.IntRange(0, 7).Draw(t, "longLists") == 0 {
+		switch rapid.IntRange(0, 15).Draw(t, "longLists") {
+		case 0, 1:
 			p.MaxLen = 13 // index 10 and beyond
+		case 2:
+			p.MaxLen = 40 // beyond the sizes at which sorts and growth strategies switch algorithm
 		}
 		root := uni.GenDatum(t, p)
 		o := Opts{}
